@@ -325,6 +325,8 @@ class RefTerm:
                 self.x = 0
                 self._linefeed()
             self.wrap_pending = False
+        if w == 2 and self.cols < 2:
+            return  # a wide character cannot be shown on a one-column terminal
         if w == 2 and self.x == self.cols - 1:
             if self.autowrap:
                 # a wide character does not fit in the last column: wrap first
@@ -335,6 +337,7 @@ class RefTerm:
                 return
         row = self.grid[self.y]
         if self.insert:
+            self._split_wide_at(self.y, self.x)
             for _ in range(w):
                 row.insert(self.x, Cell())
                 dropped = row.pop()
